@@ -157,12 +157,16 @@ def check_space(chk, drv, sp, stats, ndata):
         Mn = np.array([[float(v) for v in r] for r in Mo])
         kappa = H.inv_norm(Mn.T)
         tgt = L / n
+        # break points that are equidistant only up to the rounding of the coordinates (far from the origin): the cells, and with them
+        # the weights, differ by that much
+        dbr = np.diff(sp.breaks)
+        uneven = F(float(np.max(np.abs(dbr - dbr.mean())))) * 4
         if kappa is None:
             fail('C09:equal-weights', 'interpolation points of a uniform periodic space are not unisolvent')
         for i in range(n if kappa is not None else 0):
             d = abs(wf[i] - tgt)
             stats['equal'] = max(stats.get('equal', 0.0), float(d / (EPS * F(kappa) * tgt)))
-            if d > F(CN) * EPS * F(kappa) * tgt:
+            if d > F(CN) * EPS * F(kappa) * tgt + F(kappa) * uneven:
                 fail('C09:equal-weights', 'weights of a uniform periodic space are not all equal to L/n', float(tgt), float(w[i]))
                 break
         chk.count('uniform periodic: equal weights checked')
@@ -277,6 +281,12 @@ def run(chk):
             a = rng.choice([0.1, 0.1, 0.3, 1.1, rng.uniform(-10, 10), rng.uniform(0, 2)])
             L_ = rng.choice([1.0, 14.4, rng.uniform(0.5, 20.0)])
             todo.append(H.Sp(3, k % 3 == 2, 'cu', np.linspace(a, a + L_, rng.randint(4, 30) + 1)))
+        # periodic spaces FAR from the origin whose cells are small compared with the coordinates (a window of a long domain): the knots are
+        # as far apart as anywhere else, only a comparison relative to the size of the coordinates takes them for equal
+        for k, (a_, L_) in enumerate([(2000.0, 0.125), (-50000.0, 1.0), (4096.0, 0.5), (1.0e6, 8.0)]):
+            pdeg = [2, 3, 4, 5][k]
+            w_ = np.array([1.0 + 0.5 * (j % 3) for j in range(pdeg + 5)]) if k % 2 else np.ones(pdeg + 5)
+            todo.append(H.Sp(pdeg, True, 'random' if k % 2 else 'uniform', a_ + L_ * np.concatenate([[0.0], np.cumsum(w_)]) / w_.sum()))
         # knot vectors of whole numbers handed over as integer arrays (hand-built with np.arange): the same spaces as with float knots
         for k in range(chk.n(12, 60)):
             pdeg = 3 if k % 2 == 0 else rng.randint(1, 5)
